@@ -153,3 +153,81 @@ Example C13_stored_concrete :
   qlist_eqb (roundtrip_row (any_above eps) (scale_row k row)) [0; 0; 0] = true /\
   c13_store_case [row; [0; 0; 0]] [row; [0; 0; 0]] = 0%nat /\ c13_store_case [scale_row k row] [[0; 0; 0]] = 1%nat.
 Proof. vm_compute. repeat split; reflexivity. Qed.
+
+(* ---------------- the coordinate convention of the input ---------------- *)
+(* catalogs are given as coordinates (Model/Invariance.v: cobj), read through a unit factor c and a position function
+   [pos] with a period T in the right ascension; the code applies no range check or canonicalisation ([read]).  The same
+   objects in another unit (all coordinates times u, read with c / u) and with right ascensions moved by whole periods of
+   the unit, an own number per object (so [0, T'), (-T'/2, T'/2], +-T' and mixtures), are read as the same labelled
+   objects: every function of the catalogs - counts, jackknife samples, normalised terms - is unchanged, each catalog
+   in a convention of its own *)
+Theorem C13_read_ra_convention : forall (P : Type) (pos : Q -> Q -> P) (T : Q),
+  (forall a a' d d', a == a' -> d == d' -> pos a d = pos a' d') -> (forall a d, pos (a + T) d = pos a d) ->
+  forall c u T' k (A : list cobj), c * T' == T -> ~ u == 0 ->
+  map (read pos (c / u)) (map (in_unit u) (map (shift_ra T' k) A)) = map (read pos c) A.
+Proof. exact @read_convention. Qed.
+Print Assumptions C13_read_ra_convention.
+
+Theorem C13_count_ra_convention : forall (P : Type) (pos : Q -> Q -> P) (T : Q),
+  (forall a a' d d', a == a' -> d == d' -> pos a d = pos a' d') -> (forall a d, pos (a + T) d = pos a d) ->
+  forall (ang : P -> P -> Q) c uA uB T' kA kB lo hi (A B : list cobj), c * T' == T -> ~ uA == 0 -> ~ uB == 0 ->
+  count ang lo hi (map (read pos (c / uA)) (map (in_unit uA) (map (shift_ra T' kA) A)))
+                  (map (read pos (c / uB)) (map (in_unit uB) (map (shift_ra T' kB) B)))
+  = count ang lo hi (map (read pos c) A) (map (read pos c) B).
+Proof. exact @count_ra_convention. Qed.
+Print Assumptions C13_count_ra_convention.
+
+Theorem C13_loo_ra_convention : forall (P : Type) (pos : Q -> Q -> P) (T : Q),
+  (forall a a' d d', a == a' -> d == d' -> pos a d = pos a' d') -> (forall a d, pos (a + T) d = pos a d) ->
+  forall (ang : P -> P -> Q) c uA uB T' kA kB lo hi p (A B : list cobj), c * T' == T -> ~ uA == 0 -> ~ uB == 0 ->
+  loo_count ang lo hi p (map (read pos (c / uA)) (map (in_unit uA) (map (shift_ra T' kA) A)))
+                        (map (read pos (c / uB)) (map (in_unit uB) (map (shift_ra T' kB) B)))
+  = loo_count ang lo hi p (map (read pos c) A) (map (read pos c) B).
+Proof. exact @loo_ra_convention. Qed.
+Print Assumptions C13_loo_ra_convention.
+
+Theorem C13_norm_ra_convention : forall (P : Type) (pos : Q -> Q -> P) (T : Q),
+  (forall a a' d d', a == a' -> d == d' -> pos a d = pos a' d') -> (forall a d, pos (a + T) d = pos a d) ->
+  forall (ang : P -> P -> Q) c uA uB T' kA kB lo hi (A B : list cobj), c * T' == T -> ~ uA == 0 -> ~ uB == 0 ->
+  norm_count ang lo hi (map (read pos (c / uA)) (map (in_unit uA) (map (shift_ra T' kA) A)))
+                       (map (read pos (c / uB)) (map (in_unit uB) (map (shift_ra T' kB) B)))
+  = norm_count ang lo hi (map (read pos c) A) (map (read pos c) B).
+Proof. exact @norm_ra_convention. Qed.
+Print Assumptions C13_norm_ra_convention.
+
+(* a reading that first wraps the right ascension into [0, W) reads the same objects when W is a period in the unit of
+   the input (degrees: W = 360 with c * 360 == T) ... *)
+Theorem C13_wrap_in_unit_harmless : forall (P : Type) (pos : Q -> Q -> P) (T : Q),
+  (forall a a' d d', a == a' -> d == d' -> pos a d = pos a' d') -> (forall a d, pos (a + T) d = pos a d) ->
+  forall W c o, c * W == T -> read_wrapped pos W c o = read pos c o.
+Proof. exact @read_wrapped_period. Qed.
+Print Assumptions C13_wrap_in_unit_harmless.
+
+(* ... and changes the counts when it is applied whatever the unit: for some periodic reading, wrapping by W the
+   coordinates whose period is not a divisor of W moves the objects given with a negative right ascension *)
+Theorem C13_wrap_before_unit_refuted :
+  exists (T W : Q) (A B : list cobj) lo hi,
+    (forall a a' d d', a == a' -> d == d' -> circle_pos T a d = circle_pos T a' d') /\
+    (forall a d, circle_pos T (a + T) d = circle_pos T a d) /\
+    ~ count (circle_ang T) lo hi (map (read_wrapped (circle_pos T) W 1) A) (map (read_wrapped (circle_pos T) W 1) B)
+      == count (circle_ang T) lo hi (map (read (circle_pos T) 1) A) (map (read (circle_pos T) 1) B).
+Proof. exact wrap_before_unit_refuted. Qed.
+Print Assumptions C13_wrap_before_unit_refuted.
+
+(* on the circle of circumference 7 ("radian") = 360 "degrees" (c = 7 # 360): a field on both sides of RA = 0 given in
+   degrees within [0, 360), in degrees within (-180, 180] and beyond, and in "radian" with negative values, counts the
+   same pairs; the wrap by 360 is harmless on the degrees and loses the pair on the "radian" *)
+Example C13_convention_concrete :
+  let pos := circle_pos 7 in let ang := circle_ang 7 in let c := 7 # 360 in
+  let o := fun ra w => {| cra := ra; cdec := 0; cw := w; cpatch := 0%nat |} in
+  let A := [o 350 2; o 10 1] in let B := [o 0 3] in
+  let k := fun x : cobj => if Qleb 180 (cra x) then (-1)%Z else 1%Z in
+  let A' := map (shift_ra 360 k) A in
+  let Arad := map (in_unit c) A' in
+  qlist_eqb (map cra A') [- (10); 370] = true /\ qlist_eqb (map cra Arad) [- (7 # 36); 259 # 36] = true /\
+  Qeqb (count ang 0 (1 # 4) (map (read pos c) A) (map (read pos c) B)) 9 = true /\
+  Qeqb (count ang 0 (1 # 4) (map (read pos c) A') (map (read pos c) B)) 9 = true /\
+  Qeqb (count ang 0 (1 # 4) (map (read pos (c / c)) Arad) (map (read pos c) B)) 9 = true /\
+  Qeqb (count ang 0 (1 # 4) (map (read_wrapped pos 360 c) A') (map (read pos c) B)) 9 = true /\
+  Qeqb (count ang 0 (1 # 4) (map (read_wrapped pos 360 (c / c)) Arad) (map (read pos c) B)) 3 = true.
+Proof. vm_compute. repeat split; reflexivity. Qed.
